@@ -515,7 +515,7 @@ def run(ctx):
     seen_bases = {}
     for b in bases:
         seen_bases.setdefault(b[0], b)
-    for data, m in targeted(r, [b for b in seen_bases.values() if b[3]], ctx.budget(60, 100000)):
+    for data, m in targeted(r, [b for b in seen_bases.values() if b[3]], ctx.budget(60, 3000)):
         batch.append(data)
         meta.append(m)
     limit = 20.0
